@@ -102,6 +102,13 @@ def run_alloc(c):
     try:
         nl = Netlist(tree)
         release(nl, c)
+        if c.get("jitter"):
+            # an earlier stage perturbed the centres IN PLACE (the force stage's add_noise does): the shape of a module with rectangles
+            # is its rectangles, wherever its centre attribute has drifted to
+            for m in nl.modules:
+                if m.num_rectangles > 0 and m.center is not None:
+                    m.center.x += float(u) * 0.375
+                    m.center.y -= float(u) * 0.125
         die = Die(dtree, nl)
     except Exception as e:
         # the generated designs are compatible by construction (fixed modules on free die area, everything else movable); on the
@@ -239,6 +246,8 @@ def run_alloc(c):
         if abs(Fr(alloc.area("F%d" % k)) - own) > atol:
             raise Violation("area(F%d) = %r, its rectangles have area %s" % (k, alloc.area("F%d" % k), float(own)), "fixed-area")
     cls = ["descriptions-loaded-twice"] if c.get("reuse") else []
+    if c.get("jitter") and (dc["fixed"] or any(m["rects"] for m in c["modules"])):
+        cls.append("centres-of-modules-with-rectangles-perturbed-in-place")
     if any(m.get("split") and not m["rects"] and len(m["split"]) > 1 and m["split"][0][0] == "_" for m in c["modules"]):
         cls.append("square-of-an-area-split-between-ground-and-other-regions")
     if any(m.get("withdrawn") for m in c["modules"]):
@@ -323,11 +332,12 @@ def case_s(draw):
             m["released"] = True
     moves = {m["name"]: [draw(_i(-3, 3)), draw(_i(-3, 3))] for m in mods if m["kind"] == "hard" and draw(st.booleans())}
     return dict(die=dc, refine=ref, modules=mods, include_zero=draw(st.booleans()), fixed_last=draw(st.booleans()),
-                moves=moves, alloc_before_move=draw(st.booleans()), reuse=draw(st.booleans()))
+                moves=moves, alloc_before_move=draw(st.booleans()), reuse=draw(st.booleans()), jitter=draw(_i(0, 2)) == 0)
 
 
 def subchecks():
     return [Sub("designs", run_alloc, strategy=case_s(), n_quick=5000, n_thorough=120000, fuzz_thorough=2500,
                 required=("with-fixed", "refined-split", "refined-grid", "include-zero", "square-from-centre", "hard-module",
                           "sticks-out", "overlaps-fixed-cell", "covers-a-cell-completely", "tiny-die", "hard-module-recentred-in-place", "descriptions-loaded-twice", "fixed-module-released-before-the-die-was-built", "rectangles-withdrawn-after-loading",
-                          "square-of-an-area-split-between-ground-and-other-regions"))]
+                          "square-of-an-area-split-between-ground-and-other-regions",
+                          "centres-of-modules-with-rectangles-perturbed-in-place"))]
